@@ -22,6 +22,7 @@ Step ==
     \/ A.n = "MoveTo" /\ MoveTo(A.c, A.i)
     \/ A.n = "Sort" /\ Sort(A.p)
     \/ A.n = "Reestablish" /\ Reestablish(A.p)
+    \/ A.n = "Replace" /\ Replace(A.b, A.t) /\ act'.ids = A.ids
     \/ A.n \in {"DeepCopy", "Pickle"} /\ Copy(A.x, A.n) /\ act'.ids = A.ids
 ObsMatch == \/ Obs' = Ev.post
             \/ /\ Obs' # Ev.post
